@@ -216,6 +216,8 @@ def element(r, import_bias=.0):
     if k < .42 + import_bias:
         parts = [simple(r) for _ in range(r.randint(2, 3))]
         parts = [p.rstrip("\n") for p in parts]
+        # a "#" on the last line of a non-final part would turn the rest of the join into a comment
+        parts = [p if (k == len(parts) - 1 or "#" not in p.split("\n")[-1]) else "%s = 0" % name(r) for k, p in enumerate(parts)]
         s = r.choice(["; ", ";", " ; "]).join(parts)
         if r.random() < .25:
             s += ";"
